@@ -651,3 +651,14 @@ Definition run_prover_trace (comp : comp_prog) (sim_lim : N) : outcome (mresult 
 (** machine.rs:207-303 *)
 Definition run_prover (comp : comp_prog) (sim_lim : N) : outcome mresult :=
   do! x <- run_prover_trace comp sim_lim; Ok (fst x).
+
+(** the rules (with minimal signatures) the prover holds when run_prover
+    returns: what the second cfg(bb_verif) hook (machine::verif::take_rules)
+    reports.  Same loop; only the projection differs. *)
+Definition run_prover_rules (comp : comp_prog) (sim_lim : N) : outcome rules_map :=
+  match for_upto sim_lim (prover_body comp) prover_init with
+  | inl s => do! _ <- finish_prover s (inl (ps_q s)); Ok (pv_rules (ps_prover s))
+  | inr Panic => Panic
+  | inr (Ok (res, cyc, ls, s)) =>
+      do! _ <- finish_prover s (inr (res, cyc, ls, ps_q s)); Ok (pv_rules (ps_prover s))
+  end.
